@@ -27,11 +27,20 @@ UNIT_TRUSTED["daemon_gr"] = [
     "Table::{drop_stale,restale,…} actually delete / mark the routes (note T, not under contract)",
 ]
 
+UNIT_TRUSTED["daemon_peer_tx"] = [
+    "prelude p_peer_tx: packet::Nlri / Attribute / Nexthop opaque, PathNlri transparent; derive(PartialEq) on Nlri is structural equality; (u32,u32) obeys the hash key model",
+    "NOT under contract: PendingTx::drain_messages and buffer_messages (hashbrown drain / Entry / by-value map iteration are outside Verus's dialect; CBMC does not terminate on hashbrown) — that a drain emits every queued withdrawal before the announcements is unverified",
+    "NOT under contract: ExportMap, process_nlri_change, GroupedSink (generic sink, 11 parameters of table/policy types, iterator chains): the diff between Loc-RIB changes and what was sent is outside this check",
+    "A-C01-1: one serialised stream of NlriChange per session (shard locks, channels, select loop)",
+    "A-C01-2: a queued announcement is cancelled only by the withdrawal of the same prefix (precondition of PendingTx::unreach)",
+]
+
 # minimum number of functions that must produce obligations / of must-fail twins that must run
-FLOORS = {"daemon_fsm": 30, "daemon_gr": 4}
-TWIN_FLOORS = {"daemon_fsm": 8, "daemon_gr": 3}
+FLOORS = {"daemon_fsm": 30, "daemon_gr": 4, "daemon_peer_tx": 7}
+TWIN_FLOORS = {"daemon_fsm": 8, "daemon_gr": 3, "daemon_peer_tx": 2}
 
 PLAN = {
+    "C01": {"verus": ["daemon_peer_tx"], "level": "proof"},
     "C07": {"verus": ["daemon_fsm"], "level": "proof"},
     "C08": {"verus": ["daemon_fsm"], "level": "proof"},
     "C10": {"verus": ["daemon_gr"], "level": "proof"},
